@@ -117,6 +117,13 @@ def make_scratch(repo, keep=False):
                     continue
                 new, inf = inject.inject(txt, os.path.relpath(p, d))
                 open(p, "w", encoding="utf-8", errors="surrogateescape").write(new)
+                if sub == "src":
+                    os.makedirs(os.path.join(d, "raw"), exist_ok=True)
+                    open(os.path.join(d, "raw", f), "w", encoding="utf-8", errors="surrogateescape").write(txt)
+                # un-annotated twin (annotation comments blanked) for sources that are only linked in, not verified
+                if sub == "src":
+                    os.makedirs(os.path.join(d, "plain"), exist_ok=True)
+                    open(os.path.join(d, "plain", f), "w", encoding="utf-8", errors="surrogateescape").write(inject.strip_for_diff(txt))
                 rel = os.path.relpath(p, d)
                 info["files"][rel] = inf
                 for n in inf["loops"]:
@@ -166,12 +173,13 @@ def run_group(pid, g, scratch, tier, repo, keep_dir=None, trace=False, only_prop
         harness = os.path.join(VERIF, g["harness"])
         if not os.path.exists(harness):
             raise Undecided("harness %s missing" % harness)
-        incs = ["-I", os.path.join(scratch, "include"), "-I", os.path.join(scratch, "src"),
+        incs = ["-I", os.path.join(VERIF, "include", "override"), "-I", os.path.join(scratch, "include"), "-I", os.path.join(scratch, "src"),
                 "-I", os.path.join(scratch, "cfg"), "-I", os.path.join(VERIF, "include"),
                 "-I", os.path.join(VERIF, "contracts"), "-I", os.path.join(VERIF, "harness")]
         defs = ["-DHAVE_CONFIG_H", "-D" + GUARD, "-DSSW_CBMC", "-Dexit=ssw_exit", "-Dabort=ssw_abort"]
         for k in g.get("defines", []):
             defs.append("-D" + k)
+        replace = list(g.get("replace", []))
         if tier == "thorough":
             for k in g.get("defines_thorough", []):
                 defs.append("-D" + k)
@@ -183,9 +191,28 @@ def run_group(pid, g, scratch, tier, repo, keep_dir=None, trace=False, only_prop
             txt = open(os.path.join(scratch, rel), errors="replace").read()
             if not re.search(r"\b%s\s*\(" % re.escape(fn), txt):
                 raise Undecided("function %s not found in %s" % (fn, rel))
+        # loop contracts are applied to every annotated loop of the binary: a group that names its loops gets private
+        # copies of the annotated sources with ONLY those loop annotations injected (ghost/field text is always kept)
+        if g.get("loop_contracts") and g.get("loops") is not None and os.path.isdir(os.path.join(scratch, "raw")):
+            want = set(g["loops"])
+            os.makedirs(os.path.join(wd, "src"), exist_ok=True)
+            for f in os.listdir(os.path.join(scratch, "raw")):
+                txt = open(os.path.join(scratch, "raw", f), encoding="utf-8", errors="surrogateescape").read()
+                try:
+                    new, inf = inject.inject(txt, f, loops=want)
+                except inject.InjectError as e:
+                    raise Undecided("annotation injection failed: %s" % e)
+                if inf["skipped"]:
+                    open(os.path.join(wd, "src", f), "w", encoding="utf-8", errors="surrogateescape").write(new)
+            incs = ["-I", os.path.join(wd, "src")] + incs
         gb = os.path.join(wd, "a.gb")
-        srcs = [harness] + [os.path.join(VERIF, s) if not s.startswith("@") else os.path.join(scratch, s[1:])
-                            for s in g.get("extra_sources", [])]
+        srcs = [harness]
+        for s in g.get("extra_sources", []):
+            if not s.startswith("@"):
+                srcs.append(os.path.join(VERIF, s))
+            else:
+                plain = os.path.join(scratch, "plain", os.path.basename(s))
+                srcs.append(plain if os.path.exists(plain) else os.path.join(scratch, s[1:]))
         cmd = ["goto-cc"] + defs + incs + ["--function", entry] + srcs + ["-o", gb]
         res["cmds"].append(" ".join(cmd))
         rc, so, se, _s, to = sh(cmd, timeout=120)
@@ -197,7 +224,7 @@ def run_group(pid, g, scratch, tier, repo, keep_dir=None, trace=False, only_prop
             cmd = ["goto-instrument", "--dfcc", entry]
             if g.get("enforce"):
                 cmd += ["--enforce-contract", g["enforce"]]
-            for r in g.get("replace", []):
+            for r in replace:
                 cmd += ["--replace-call-with-contract", r]
             if g.get("loop_contracts"):
                 cmd += ["--apply-loop-contracts"]
@@ -363,6 +390,7 @@ def trace_inputs(trace, entry):
     plus every assignment to a ghost static whose name starts with verif_."""
     vals = {}
     steps = []
+    lastvals = {}
     for st in trace:
         if st.get("stepType") != "assignment" or st.get("hidden"):
             continue
@@ -373,9 +401,15 @@ def trace_inputs(trace, entry):
             flatten_value(lhs, st.get("value"), flat)
             for k, v in flat.items():
                 vals[k] = v
-        if len(steps) < 400:
+        if not fn.startswith("__CPROVER") and not lhs.startswith("__") and "write_set" not in lhs and len(lhs) < 60:
+            d = (st.get("value") or {}).get("data")
+            if d is not None:
+                lastvals[lhs] = d
+        if True:
             steps.append({"lhs": lhs, "fn": fn, "line": st.get("sourceLocation", {}).get("line"),
                           "val": (st.get("value") or {}).get("data")})
+    steps = steps[-300:]
+    steps.append({"last_value_of_each_variable": dict(list(lastvals.items())[-400:])})
     return vals, steps
 
 
@@ -397,13 +431,16 @@ def native_replay(pid, g, inputs, scratch, repo):
         cmd = ["clang", "-g", "-O0", "-fsanitize=address,undefined", "-fno-sanitize-recover=undefined",
                "-DHAVE_CONFIG_H", "-D" + GUARD, "-DSSW_REPLAY",
                "-DSSW_ENTRY=" + g.get("entry", "h_" + g["name"]),
+               "-I", os.path.join(scratch, "plain"),  # annotation comments blanked: the code as the library build sees it
                "-I", os.path.join(scratch, "include"), "-I", os.path.join(scratch, "src"),
                "-I", os.path.join(scratch, "cfg"), "-I", os.path.join(VERIF, "include"),
                "-I", os.path.join(VERIF, "contracts"), "-I", os.path.join(VERIF, "harness")]
         for k in g.get("defines", []):
             cmd.append("-D" + k)
         cmd += [harness, os.path.join(VERIF, "replay", "replay_main.c")]
-        cmd += [os.path.join(scratch, s) for s in g.get("native_sources", [])]
+        for s in g.get("native_sources", []):
+            pl = os.path.join(scratch, "plain", os.path.basename(s))
+            cmd.append(pl if os.path.exists(pl) else os.path.join(scratch, s))
         cmd += ["-lm", "-o", exe]
         rc, so, se, _s, to = sh(cmd, timeout=180)
         if rc != 0:
